@@ -15,6 +15,7 @@ import Mwp.Lemmas.RelDefs
 import Mwp.Spec.Syntax
 import Mwp.Spec.CalculusInf
 import Mwp.Model.Cli
+import Mwp.WireResult
 import Mwp.Spec.BoundText
 open Lean Mwp Mwp.Wire
 
@@ -609,6 +610,7 @@ def dispatch (op : String) (j : Json) : R Json :=
   | "model.loop_inspect" => Ops.loopInspectOp j
   | "check.C08" => Ops.checkC08 j
   | "model.cli" => Ops.cliOp j
+  | "model.result_roundtrip" => Mwp.Wire.resultRoundtripOp j
   | "check.C10" => Ops.checkC10 j
   | "check.C10eq" => Ops.checkRelEq j
   | "model.choices" => Ops.choicesModel j
